@@ -90,6 +90,9 @@ type DB struct {
 
 	// If true, block signing is disabled. By default, block signing is enabled.
 	signingDisabled bool
+
+	// schemaReloadMu serialises the regeneration of the query language types after a commit.
+	schemaReloadMu sync.Mutex
 }
 
 var _ client.TxnStore = (*DB)(nil)
